@@ -10,6 +10,7 @@ import time
 from . import extract as X
 from . import facts as F
 from . import prim as P
+from . import inline as I
 
 VERIF = X.VERIF
 PROPS = ["C%02d" % i for i in range(1, 21)]
@@ -57,7 +58,12 @@ class Ctx:
         if f is None:
             self.violate(rule, key, "anchor", "anchor function %s not found in the extracted program "
                          "(renamed or removed: the rule cannot be evaluated)" % key, kind="anchor-missing")
-        return f
+            return f
+        # seen through freshly extracted single-use helpers (engine/blue/inline.py); identical to f on the tree the rules were written on
+        v = I.view(self.prog, f)
+        if v is not f:
+            self.notes.append("%s: looked through new helper(s) %s" % (f.skey, ", ".join(getattr(v, "inlined", []))))
+        return v
 
     def fns(self, rule, pattern, floor=1):
         fs = self.prog.fns_matching(pattern)
